@@ -276,3 +276,120 @@ Print Assumptions C16_wiring_MatrixCubeMeasures_unconditional_cube_counts.
 
 End Wiring_C16.
 (* ---- WIRING-APPENDIX:END ---- *)
+
+(*BEGIN ComposePublic_C16*)
+(* ==== COMPOSED PUBLIC THEOREMS (DESIGN 8.1: the composition of the translators' links, proved) ==== *)
+(* Generated by tools/gen_compose_appendix.py; do not edit between the markers.
+   [public_slice C p] (Proofs/ComposePublicSem.v) is the value of the public member p of cubepart._Slice computed
+   by the CHAIN OF GENERATED TERMS: the wiring term of p (Gen/WiringSrc.v, x_wiring) over the evaluation ([aeval]) of
+   the generated `_assemble_matrix` term (Gen/AssembleSrc.v, x_assemble) over the evaluations ([meval] / [meval_sq] /
+   [beval]) of the generated block terms of the measure (Gen/MeasureSrc.v, Gen/BasesSrc.v) -- each in the environment
+   in which the blocks of the measures it mentions are again evaluations of generated terms -- on the context
+   [Cs ..]: the four first-order arrays Model/CubeCounts.v::slice_counts extracts from the flat payload of
+   `tabulate S` ([survey_payload]), any subtotals / flags, any pair of in-range signed display orders.
+   [need b P] = P when every generated term named in b is available ([None] => True, like the GenAgree lemmas);
+   Cxx_public_terms_available: on this tree they all are.  The proofs use the GenAgree lemmas of the links as they
+   are (never unfolding a generated term) and Proofs/Compose*.v / Merge*.v for the last step to the respondents.
+   A change of MEANING of any generated term of a chain breaks the composed theorem of every member above it. *)
+From Coq Require String.
+From CC Require Spec.Merge Model.Subtotals Model.Proportions Proofs.MergeSurvey Proofs.ComposeBase Proofs.ComposePayload
+     Proofs.ComposePublicSem Proofs.ComposePublicLinks Proofs.ComposePublicSlice Proofs.ComposePublicCells Proofs.CubeCountsIndex Proofs.ComposePublicChain3 Proofs.ComposePublicC16.
+Section ComposePublic_C16.   (* scopes and imports below end with the section *)
+Import Coq.Strings.String Coq.ZArith.ZArith CC.Spec.Merge CC.Model.Subtotals CC.Model.Proportions CC.Proofs.MergeSurvey
+       CC.Proofs.ComposeBase CC.Proofs.ComposePayload CC.Proofs.ComposePublicSem CC.Proofs.ComposePublicLinks
+       CC.Proofs.ComposePublicSlice CC.Proofs.ComposePublicCells CC.Proofs.CubeCountsIndex CC.Proofs.ComposePublicChain3 CC.Proofs.ComposePublicC16.
+Import Coq.Lists.List.ListNotations.
+Local Close Scope Q_scope.
+Local Open Scope string_scope.
+Local Open Scope nat_scope.
+
+
+(* the vocabulary of the statement ([survey_display]: C03_public_vocabulary, [base_cells_spec]: C11_public_vocabulary).
+   [Cs_index ..] is the context [Cs ..] with the baseline of the unconditional cube counts: the array
+   Model/CubeCounts.v::baseline_of extracts from the raw (missing-including) tensor of `tabulate S`, of shape
+   (rows, columns) for MR columns and (rows, 1) otherwise. *)
+Theorem C16_public_vocabulary :
+  (forall S tv vr kr mr vc kc mc k r c x,
+     index_cell_spec S tv vr kr mr vc kc mc k r c x =
+     (x =x= xmul (Fin 100%Q)
+              (xdiv (xdiv (Fin (w_cell tv k vr kr mr vc kc mc S r c)) (Fin (w_colbase tv k vr kr mr vc kc mc S r c)))
+                    (xdiv (Fin (wsum S (fun p => pop_of tv k p && in_el kr mr (ans p vr) r)))
+                          (Fin (wsum S (fun p => pop_of tv k p && ok_el kr mr (ans p vr) r))))))) /\
+  (forall S vr kr mr vc kc mc,
+     baseline_ok S vr kr mr vc kc mc =
+     ((kc = KCat -> col_total S vc (List.length mc)) /\
+      (kr = KMr -> kc = KMr -> forall i, i < nval mr -> nth i (valid_idxs mr) 0 = i))) /\
+  (forall S tv vr kr mr vc kc mc k rsubs csubs dn rd cd flag ro co so,
+     Cs_index S tv vr kr mr vc kc mc k rsubs csubs dn rd cd flag ro co so =
+     with_baseline (Cs mr mc rsubs csubs dn rd cd flag ro co so) (kmr kc)
+       (baseline_of (raw_slice_of tv vr kr mr vc kc mc S k) (valid_idxs mr) (List.length mc) 3 (kmr kr) (kmr kc))).
+Proof. exact (conj (fun _ _ _ _ _ _ _ _ _ _ _ _ => eq_refl) (conj (fun _ _ _ _ _ _ _ => eq_refl)
+                   (fun _ _ _ _ _ _ _ _ _ _ _ _ _ _ _ _ _ _ => eq_refl))). Qed.
+Print Assumptions C16_public_vocabulary.
+
+(* _Slice.column_index at a display cell showing base row r, base column c: 100 * column proportion / unconditional share of row r *)
+Theorem C16_public_Slice_column_index :
+  need terms_public_column_index
+  (forall S tv vr kr mr vc kc mc k rsubs csubs dn rd cd flag ro co so,
+     survey_display S tv vr kr mr vc kc mc k rsubs csubs ro co so ->
+     baseline_ok S vr kr mr vc kc mc ->
+     base_cells_spec (public_slice (Cs_index S tv vr kr mr vc kc mc k rsubs csubs dn rd cd flag ro co so) "column_index") ro co
+       (index_cell_spec S tv vr kr mr vc kc mc k)).
+Proof. exact compose_public_Slice_column_index. Qed.
+Print Assumptions C16_public_Slice_column_index.
+
+(* NON-VACUITY of the guards: every generated term the chains need is available on this tree *)
+Theorem C16_public_terms_available :
+  terms_public_column_index = true.
+Proof. exact eq_refl. Qed.
+Print Assumptions C16_public_terms_available.
+
+(* EXAMPLE: the survey, subtotal and display of the C03_public_* examples (an inserted row is NaN) *)
+Example C16_public_Slice_column_index_example :
+  let S := [ mkResp [ACat 0; AMr [Sel; Oth]; ACat 0] (3 # 2);
+             mkResp [ACat 2; AMr [Sel; Mis]; ACat 1] 2;
+             mkResp [ACat 1; AMr [Sel; Sel]; ACat 0] 5;
+             mkResp [ACat 2; AMr [Oth; Sel]; ACat 1] (1 # 4);
+             mkResp [ACat 0; AMr [Oth; Oth]; ACat 2] 1 ] in
+  let mr := [false; true; false; false] in
+  let mc := [false; false] in
+  let rs := [mkSub [0; 2] []] in
+  let ro := [1; -1; 0]%Z in
+  let co := [1; 0]%Z in
+  match slice_counts (cube_dims None KCat mr KMr mc) (survey_payload None 0 KCat mr 1 KMr mc S) 0 with
+  | Some so =>
+      let P := public_slice (Cs_index S None 0 KCat mr 1 KMr mc 0 rs [] false false false (fun _ => false) ro co so) "column_index" in
+      survey_display S None 0 KCat mr 1 KMr mc 0 rs [] ro co so /\
+      baseline_ok S 0 KCat mr 1 KMr mc /\
+      base_cells_spec P ro co (index_cell_spec S None 0 KCat mr 1 KMr mc 0) /\
+      pred P = PMat 3 2 [[Fin (1900 # 9); Fin (7600 # 63)]; [NaN; NaN]; [Fin 0; Fin (570 # 7)]] /\
+      (100 * ((w_cell None 0 0 KCat mr 1 KMr mc S 1 0 / w_colbase None 0 0 KCat mr 1 KMr mc S 1 0) / (wsum S (fun p => pop_of None 0 p && in_el KCat mr (ans p 0) 1) / wsum S (fun p => pop_of None 0 p && ok_el KCat mr (ans p 0) 1))) == 7600 # 63)%Q
+  | None => False
+  end.
+Proof.
+  cbv zeta.
+  destruct (slice_counts (cube_dims None KCat [false; true; false; false] KMr [false; false])
+              (survey_payload None 0 KCat [false; true; false; false] 1 KMr [false; false] _) 0) as [so|] eqn:E;
+    [|vm_compute in E; discriminate].
+  assert (D : survey_display
+                [ mkResp [ACat 0; AMr [Sel; Oth]; ACat 0] (3 # 2); mkResp [ACat 2; AMr [Sel; Mis]; ACat 1] 2;
+                  mkResp [ACat 1; AMr [Sel; Sel]; ACat 0] 5; mkResp [ACat 2; AMr [Oth; Sel]; ACat 1] (1 # 4);
+                  mkResp [ACat 0; AMr [Oth; Oth]; ACat 2] 1 ]
+                None 0 KCat [false; true; false; false] 1 KMr [false; false] 0 [mkSub [0; 2] []] []
+                [1; -1; 0]%Z [1; 0]%Z so).
+  { split; [exact I|]. split; [left; reflexivity|]. split; [right; reflexivity|]. split; [vm_compute; lia|].
+    split; [repeat constructor; discriminate|]. split; [vm_compute; lia|]. split; [vm_compute; lia|].
+    split; [exact E|]. split; repeat constructor; vm_compute; discriminate. }
+  split; [exact D|].
+  assert (HX : baseline_ok [ mkResp [ACat 0; AMr [Sel; Oth]; ACat 0] (3 # 2); mkResp [ACat 2; AMr [Sel; Mis]; ACat 1] 2;
+                  mkResp [ACat 1; AMr [Sel; Sel]; ACat 0] 5; mkResp [ACat 2; AMr [Oth; Sel]; ACat 1] (1 # 4);
+                  mkResp [ACat 0; AMr [Oth; Oth]; ACat 2] 1 ] 0 KCat [false; true; false; false] 1 KMr [false; false])
+    by (split; intros; discriminate).
+  split; [exact HX|].
+  split; [exact (need_elim _ _ eq_refl C16_public_Slice_column_index _ _ _ _ _ _ _ _ _ _ _ _ _ _ _ _ _ _ D HX)|].
+  vm_compute in E. injection E as <-.
+  split; [vm_compute; reflexivity|]. vm_compute; reflexivity.
+Qed.
+
+End ComposePublic_C16.
+(*END ComposePublic_C16*)
